@@ -46,3 +46,25 @@ Section CellSample.
     let target_y' := if negb target_y_valid then 0 else target_y in
     filt target_y' target_x' && target_x_valid && target_y_valid.
 End CellSample.
+
+(* ---------------------------------------------------------------- several lazy bucket resamplers in ONE dask.compute.
+   dask merges the task graphs of all requested arrays into one dictionary keyed by task name; the index arrays of a
+   resampler read the output of ITS projection task (map_blocks(self._get_proj_coordinates, lons, lats)) under that
+   task's name.  [rs_key] is that name, [rs_proj] what the task yields (the PROJ oracle for this resampler's target CRS
+   applied to the shared lon/lats). *)
+Section BucketJoint.
+  Context {T : Type} (OP : ops T).
+  Record resampler := mk_rs { rs_area : area T; rs_key : Z; rs_proj : list (T * T) }.
+  Definition graph := list (Z * list (T * T)).
+  Fixpoint glookup (k : Z) (g : graph) : option (list (T * T)) :=
+    match g with nil => None | (k', v) :: r => if k =? k' then Some v else glookup k r end.
+  Definition rs_task (r : resampler) : Z * list (T * T) := (rs_key r, rs_proj r).
+  Definition rs_indices (g : graph) (r : resampler) : list (Z * Z) :=
+    match glookup (rs_key r) g with
+    | Some pts => map (fun p => bk_xy OP (rs_area r) (fst p) (snd p)) pts
+    | None => nil
+    end.
+  Definition rs_standalone (r : resampler) : list (Z * Z) := rs_indices (rs_task r :: nil) r.
+  Definition rs_joint (rs : list resampler) : list (list (Z * Z)) := map (rs_indices (map rs_task rs)) rs.
+End BucketJoint.
+Arguments mk_rs {T}. Arguments rs_area {T}. Arguments rs_key {T}. Arguments rs_proj {T}.
